@@ -273,6 +273,58 @@ func init() {
 			}
 		}
 	})
+	// a worker died, a later dispatch replaced it: the replacement must go down with the pool too
+	for _, how := range []string{"kill", "shutdown"} {
+		how := how
+		c10Scenario("pool-replacement-then-"+how, 1, 2, func(w *World, t *tree) {
+			f := t.pool("P", 2)
+			w.Setup("start", func() {
+				if _, err := w.n.Spawn(f, gen.ProcessOptions{}); err != nil {
+					panic(err)
+				}
+			})
+			w.Setup("kill-w1", func() { w.n.Kill(w.pids["P.w1"]) })
+			w.Setup("traffic", func() { w.n.Send(w.pids["P"], "m1"); w.n.Send(w.pids["P"], "m2"); w.n.Send(w.pids["P"], "m3") })
+			w.ex.Thread("A", func() {
+				if how == "kill" {
+					w.n.Kill(w.pids["P"])
+				} else {
+					w.n.SendExit(w.pids["P"], gen.TerminateReasonShutdown)
+				}
+			})
+			w.ex.Thread("B", func() { w.n.Send(w.pids["P"], "m4") })
+			w.Check = func() {
+				if len(t.all["P.w3"]) == 0 {
+					w.ex.Fail("harness", "no replacement worker was spawned")
+				}
+			}
+		})
+	}
+	// an application whose LAST member fails to start: the members started before it must not stay
+	for _, nmem := range []int{2, 3} {
+		nmem := nmem
+		c10Scenario(fmt.Sprintf("app-start-failure-member%d", nmem), 1, 2, func(w *World, t *tree) {
+			t.factories["S"] = t.sup("S", act.SupervisorTypeOneForOne, "w1")
+			order := []string{}
+			app := &appB{w: w, name: "app", mode: gen.ApplicationModeTemporary, order: &order}
+			t.failInit["bad"] = true
+			if _, err := w.n.ApplicationLoad(&c10app{appB: app, t: t, extra: nmem - 2, bad: true}); err != nil {
+				panic(err)
+			}
+			var err error
+			w.ex.Thread("start", func() { err = w.n.ApplicationStart("app", gen.ApplicationOptions{}) })
+			w.Check = func() {
+				if err == nil {
+					w.ex.Fail("startup-error-ignored", "a member failed in Init but the application started")
+				}
+				for _, n := range []string{"S", "w1", "w2", "x1", "bad"} {
+					if t.anyAlive(n) {
+						w.ex.Fail("orphan", "the application failed to start but %s, started before the failing member, keeps running", n)
+					}
+				}
+			}
+		})
+	}
 	// application {S{w1}, w2}: stop / stop-force / member killed, one fault at every point
 	for _, how := range []string{"stop", "stopforce"} {
 		for _, v := range []string{"", "S", "w1", "w2"} {
@@ -385,7 +437,9 @@ func init() {
 // application whose members are a supervisor and a worker of a tree
 type c10app struct {
 	*appB
-	t *tree
+	t     *tree
+	extra int  // additional plain members
+	bad   bool // append a member whose Init fails
 }
 
 func (a *c10app) Load(node gen.Node, args ...any) (gen.ApplicationSpec, error) {
@@ -393,6 +447,13 @@ func (a *c10app) Load(node gen.Node, args ...any) (gen.ApplicationSpec, error) {
 	spec.Group = []gen.ApplicationMemberSpec{
 		{Name: "S", Factory: a.t.factories["S"]},
 		{Name: "w2", Factory: a.t.worker("w2")},
+	}
+	if a.bad {
+		spec.Group = spec.Group[:1]
+		if a.extra > 0 {
+			spec.Group = append(spec.Group, gen.ApplicationMemberSpec{Name: "x1", Factory: a.t.worker("x1")})
+		}
+		spec.Group = append(spec.Group, gen.ApplicationMemberSpec{Name: "bad", Factory: a.t.worker("bad")})
 	}
 	return spec, nil
 }
